@@ -83,9 +83,11 @@ class Case:
     """files: list of (stack, notes); stack in 'm','n','x'; notes None (no section) or list of notes, each a list of
     (type, datasz, value)."""
 
-    def __init__(self, files, z="-", isa="-", kind="exe", tag="random"):
+    def __init__(self, files, z="-", isa="-", kind="exe", tag="random", zseq=None):
         self.files = files
-        self.z = z
+        self.z = z              # the effective flag: the LAST of -z execstack / -z noexecstack on the command line
+        self.zseq = zseq or z   # the flags as given, in order
+        assert self.zseq[-1] == z
         self.isa = isa
         self.kind = kind
         self.tag = tag
@@ -191,7 +193,7 @@ def canon(stack, props):
 
 
 def run_link(linker, case, objs, out):
-    args = ["-o", out] + KIND_FLAGS[case.kind] + Z_FLAGS[case.z]
+    args = ["-o", out] + KIND_FLAGS[case.kind] + [a for ch in case.zseq for a in Z_FLAGS[ch]]
     if ISA_FLAGS[case.isa]:
         args += ["-z", ISA_FLAGS[case.isa]]
     args += objs
@@ -244,6 +246,10 @@ def fixed_cases(thorough=False):
     for z in "-xn":
         for sts in ["m", "n", "x", "mm", "nn", "nm", "mn", "nx", "xn", "mx", "xx"]:
             cs.append(Case([(s, None) for s in sts], z=z, tag="stack-grid"))
+    # both flags given: the last one decides (GNU ld)
+    for zseq in ("xn", "nx", "xnx", "nxn"):
+        for sts in ["n", "nn", "m", "nm"]:
+            cs.append(Case([(s, None) for s in sts], z=zseq[-1], zseq=zseq, tag="stack-flag-sequence"))
     for kind in ("static", "shared", "pie"):
         cs.append(Case([("n", None), ("n", None)], kind=kind, tag="stack-kind"))
         cs.append(Case([("n", None), ("m", None)], kind=kind, tag="stack-kind"))
